@@ -100,6 +100,7 @@ const (
 	PolWrongFile = 5 // NON-conformant: answers a symbol request with some other file
 	PolMissDep   = 6 // NON-conformant: never provides one dependency (NotFound error response)
 	PolDirect    = 7 // requested file + its direct imports only: later rounds re-send files the client already has
+	PolCpp       = 8 // like grpc C++: closure minus everything already sent on this stream - the requested file included (possibly an empty answer)
 )
 
 type Server struct {
@@ -158,6 +159,14 @@ func (s *Server) answer(f File, sent map[string]bool, bySymbol bool) [][]byte {
 		s.closure(f, map[string]bool{}, &all)
 		for i, x := range all {
 			if i == 0 || !sent[x.Name] {
+				files = append(files, x)
+			}
+		}
+	case PolCpp:
+		var all []File
+		s.closure(f, map[string]bool{}, &all)
+		for _, x := range all {
+			if !sent[x.Name] {
 				files = append(files, x)
 			}
 		}
